@@ -105,7 +105,18 @@ pub fn diff_case(ctx: &Ctx, input: &Input, do_gc: bool) -> CaseResult {
         out.label("skip:input-invalid");
         return Ok(out);
     }
-    let emitted = match wal::roundtrip(&bytes, wal::Cfg::plain(), do_gc) {
+    // behaviour must not depend on the configuration switches that only ask
+    // for bookkeeping: a quarter of the cases record the code transform, an
+    // eighth are emitted without the name section
+    let cfgv = wal::Cfg {
+        code_transform: sb.get(63).map(|b| b % 4 == 0).unwrap_or(false),
+        names: sb.get(62).map(|b| b % 8 != 0).unwrap_or(true),
+        ..wal::Cfg::plain()
+    };
+    if cfgv.code_transform {
+        out.label("config:code-transform-recorded");
+    }
+    let emitted = match wal::roundtrip(&bytes, cfgv, do_gc) {
         Ok(Some(b)) => b,
         Ok(None) => {
             out.label("skip:walrus-rejected(C05)");
@@ -114,7 +125,7 @@ pub fn diff_case(ctx: &Ctx, input: &Input, do_gc: bool) -> CaseResult {
         Err(f) => {
             // C06: a module that emits without the pass but not after it has
             // been broken by the pass
-            if do_gc && matches!(wal::roundtrip(&bytes, wal::Cfg::plain(), false), Ok(Some(_))) {
+            if do_gc && matches!(wal::roundtrip(&bytes, cfgv, false), Ok(Some(_))) {
                 return Err(Failure::new(
                     format!("gc-breaks-the-module:{}", f.signature),
                     format!("parse>emit succeeds, parse>gc>emit panics: {} [{}]", f.detail, origin),
@@ -128,7 +139,7 @@ pub fn diff_case(ctx: &Ctx, input: &Input, do_gc: bool) -> CaseResult {
     // bytes differ (C08's business) the second output is executed as well
     let mut second: Option<Vec<u8>> = None;
     if !do_gc {
-        let cfg = wal::Cfg::plain().to_config();
+        let cfg = cfgv.to_config();
         if let Ok(Ok(mut m)) = wal::parse(&bytes, &cfg) {
             if let (Ok(_), Ok(b2)) = (wal::emit(&mut m), wal::emit(&mut m)) {
                 if b2 != emitted {
